@@ -187,6 +187,17 @@ SCOPE = {
 	'C20': ([r'lightning-block-sync/'], 68),
 }
 
+# additional (files, floor, function filter) scopes per property
+EXTRA = {
+	# the readers / writers of the persisted top-level objects: a registration, replay or fix-up step of a reader that silently stops happening
+	# for one shape of stored object is a round-trip defect (the reloaded object no longer behaves like the one that was written)
+	'C12': [([r'ln/channelmanager\.rs$', r'ln/channel\.rs$', r'chain/channelmonitor\.rs$', r'ln/outbound_payment\.rs$', r'chain/onchaintx\.rs$', r'routing/gossip\.rs$', r'util/sweep\.rs$'], 700,
+		r'^(read|write|from_channel_manager_data|read_(?!only).*|write_.*)$')],
+}
+
 def for_property(F, pid, rule_id):
 	sc = SCOPE[pid]
-	return rule(F, rule_id, sc[0], sc[1], fn_re=sc[2] if len(sc) > 2 else None)
+	out = rule(F, rule_id, sc[0], sc[1], fn_re=sc[2] if len(sc) > 2 else None)
+	for extra in EXTRA.get(pid, ()):
+		out += [r for r in rule(F, rule_id, extra[0], extra[1], fn_re=extra[2]) if not r.ok or r.key.startswith('anchor')]
+	return out
